@@ -26,6 +26,10 @@ CHECKS = {
    "bounded-exhaustive enumeration of redirection lists x command kinds x noclobber on the real shell over the simulated OS, repeated under every descriptor limit 5..14 (fault enumeration of each descriptor allocation), oracle = POSIX descriptor-table model + before/after table equality",
    "Every redirection list of length <= 2 (thorough: larger target-fd alphabet and a length-3 slice) over {< > >> >| <> <& >& <<} x target fd {default,3,5(closed),...} x operand {existing, missing, other file, open/closed/internal fd, -, non-numeric} on 11 command kinds (regular built-in, special built-in eval / :, function, brace group, subshell, external, not found, empty command, exec, command exec), with noclobber where relevant, is run through the whole shell. A descriptor-table model predicts the table the command must see (description identity, access mode, inode identity), the files created/truncated, whether the command runs, and what happens after an error; the real table (all descriptors, read from the simulator's process state) must be identical before and after every non-exec command, at EXIT, every descriptor >= 10 must be close-on-exec. Fault enumeration: the same lists under `ulimit -n N` for every N in 5..14, so each internal allocation fails at some N; then only the invariants are judged.",
    "Offsets are not compared; directories/missing parents as write targets are left to C19; under descriptor limits only restoration/close-on-exec invariants and the inside-table (when the command ran) are judged."),
+ "C08": ("model_checking", "DESIGN.md §3 C08",
+   "stateless schedule exploration (all cooperative schedules + syscall-tap preemption, deviation bound 1) of mutator programs in every subshell kind on the real shell, oracle = full-state snapshots taken inside the shell",
+   "30 state mutators (assign, unset, export, readonly, typeset, function define/undefine/redefine, alias/unalias/global alias, six `set` options, set --, shift, cd, umask, trap set/reset/ignore/EXIT, exec redirections opening/closing/appending, ulimit), singly and in ordered pairs (quick: a 1/5 slice of pairs), are placed inside each of `( )`, `$( )`, first and last element of a pipeline and an asynchronous list, after each of 3 preludes that put the parent into a non-initial state; every program runs under every cooperative schedule of its processes and (single mutators; thorough: all) with preemption at every simulated syscall at deviation bound 1. A snapshot probe serialises variables with attributes, positional parameters, functions, aliases, options, traps, installed dispositions, signal mask, umask, cwd and the descriptor table by open-file-description identity. Oracle: the parent's snapshot is identical before and after (except $?, $!, jobs and the internal SIGCHLD handler); the child's snapshot on entry equals the parent's except command traps reset to default (ignored stay ignored, INT/QUIT ignored in async lists); the body ran in another process.",
+   "Snapshot probe trusted; descriptor table compared only for `( )` on entry (other kinds legitimately replace stdin/stdout)."),
 }
 
 NOT_YET = {
